@@ -11,8 +11,8 @@ class C03(FCheck):
     prop = "C03"
     level = "fault_enumeration"
     default_seed = 3003
-    N = {"quick": 60, "thorough": 1200}
-    PER_CASE = {"quick": 45, "thorough": 100000}
+    N = {"quick": 44, "thorough": 1200}
+    PER_CASE = {"quick": 36, "thorough": 100000}
     PAIRS = {"quick": 0, "thorough": 10}
     kinds = ("errno", "kill")
     technique = "deterministic simulation: alias grid (path spelling, symlink, hard link) x single-fault enumeration x kill enumeration (SIGKILL before each system call); snapshot oracle on every source and bystander in every run"
